@@ -74,6 +74,10 @@ def run_conditions(conds, timeout, jobs=None, cost=None):
     import threading
     import queue
     jobs = min(jobs or C.NCPU, max(1, len(conds)))
+    oids = [c.oid for c in conds]
+    if len(set(oids)) != len(oids):
+        dup = sorted(set(o for o in oids if oids.count(o) > 1))
+        raise C.HarnessError('obligation ids are not unique (results would overwrite each other): %r' % dup[:5])
     budget = C.budget_s()
     deadline = (time.time() + budget) if budget else None
     order = sorted(range(len(conds)), key=(lambda i: -cost(conds[i])) if cost else (lambda i: i))
@@ -274,6 +278,59 @@ def concrete_reach(conds, obligations):
                 # the solver says "holds for all values" but a concrete sample fails: engine/harness problem
                 o.verdict = ERROR
                 o.detail = 'concrete sample run fails although condition was confirmed: %r' % (r,)
+
+
+def stub_validation(prop, conds, obligations, start=700):
+    """The symbolic runs replace message formatting (str.format, %, format) by a stub, so a failure *inside* the building
+    of an error message (wrong number of % arguments, a missing attribute in a format call) is cut away.  Every condition
+    may therefore carry concrete samples chosen to walk its error paths (cond.stub_samples); they are run on the real
+    code without CrossHair and without any stub.  A failing sample is a violation witnessed on the real code (the
+    sample is the witness); passing samples change nothing.  Never turns anything into a success."""
+    by = {o.oid: o for o in obligations}
+    groups = {}
+    for c in conds:
+        if c.twin or not getattr(c, 'stub_samples', None):
+            continue
+        o = by.get(c.oid)
+        if o is None or o.verdict not in (DISCHARGED, INCONCLUSIVE):
+            continue
+        groups.setdefault(c.module, []).append(c)
+
+    def work(item):
+        module, cs = item
+        payload = json.dumps([dict(fn=c.fn, args=a, key='%s#%d' % (c.fn, i)) for c in cs for i, a in enumerate(c.stub_samples)])
+        rc, out, err = C.sh([C.PY, '-m', 'vf.chreplay', module, '--batch', payload], timeout=900, cwd=C.VERIF,
+                            env={'PYTHONPATH': C.VERIF + ':' + C.REPO, 'VF_SYMBOLIC': '0', 'PYTHONDONTWRITEBYTECODE': '1'})
+        res = {}
+        for ln in out.splitlines():
+            if ln.startswith('{"batch"'):
+                res = json.loads(ln)['batch']
+        return cs, res
+
+    n = start
+    ran = 0
+    for cs, res in C.run_pool(list(groups.items()), work):
+        for c in cs:
+            o = by[c.oid]
+            for i, args in enumerate(c.stub_samples):
+                r = res.get('%s#%d' % (c.fn, i))
+                if r is None:
+                    continue
+                ran += 1
+                if r.get('ok'):
+                    continue
+                was = o.verdict
+                o.verdict = VIOLATED
+                o.replayed = True
+                o.witness = dict(fn=c.fn, args=args, found_by='concrete error-path sample (validation of the message-formatting stub)')
+                o.signature = r.get('explain') or {}
+                o.detail = 'symbolic run %s with message formatting stubbed; concrete error-path sample %r fails on the real code: value=%r exc=%r %s' % (
+                    was, args, r.get('value'), r.get('exc'), json.dumps(r.get('explain') or {}, sort_keys=True)[:300])
+                n += 1
+                o.replay_path = C.write_replay(prop, n, dict(property=prop, engine='concrete-error-path-sample', kind='e1-call', module=c.module,
+                                                              module_source=open(c.module).read(), fn=c.fn, args=args, kwargs={}, desc=c.desc, explain=r.get('explain')))
+                break
+    return ran
 
 
 def boundary_probe(prop, conds, obligations, start=500):
